@@ -65,6 +65,18 @@ CHECKS['C11'] = dict(
     note='Trusted: as C03; the closed form of the time average of cos/sin is a trusted calculus fact; the unaveraged table is the '
          'oracle for "as in the unaveraged table" and is tied to level pairs by solver queries.',
     design='§3 C11')
+CHECKS['C06'] = dict(
+    text='All 35 plane kernels Rotate(i,j,theta,delta) are executed symbolically (theta, delta, A symbolic; sin/cos of integer angle '
+         'combinations rewritten by the addition formulas, circle lemma) and decided equal to R^dagger A R, with R unitary. RotateToB1 / '
+         'RotateToB0 are decided compositionally for d=2..6: the logged sequence of plane rotations (stored angle/phase per pair, order) '
+         'multiplied out equals Const::GetTransformationMatrix entry-wise, and B0 is the reversed, angle-negated sequence; end to end '
+         'for small d. Rotate(U), UTransform(U), UDaggerTransform(U) are decided against U^dagger M U / U M U^dagger for a fully symbolic '
+         'complex U, including after a previous call with the same matrix object or another dimension (thread-local scratch). The '
+         'WeightedRotation sandwich is decided = Yd A Yd and both overloads compose the same logged primitive maps. The parameter store '
+         'is decided with unconstrained symbolic indices.',
+    note='Trusted: as C03; zgemm/containers from the reference shim; matrix entry points for d<=4 in the quick tier (d<=6 thorough); '
+         'general (non-diagonal) Yd is outside the WeightedRotation clause.',
+    design='§3 C06')
 NA_REASON = 'check not built yet (framework under construction; see DESIGN.md)'
 NA = {}
 
